@@ -172,8 +172,15 @@ pub mod non_blocking {
                         .danger_accept_invalid_certs(true);
                 }
                 for data in &self.0.ca_certs {
-                    let cert =
-                        reqwest::Certificate::from_pem(data).or_else(|_| reqwest::Certificate::from_der(data))?;
+                    // with the rustls backend `Certificate::from_pem` never fails (the data is only
+                    // looked at later, and DER input then yields no certificate at all), so a
+                    // fallback on its error cannot be used to detect DER
+                    let is_pem = data.windows(11).any(|w| w == b"-----BEGIN ");
+                    let cert = if is_pem {
+                        reqwest::Certificate::from_pem(data)?
+                    } else {
+                        reqwest::Certificate::from_der(data)?
+                    };
                     builder = builder.add_root_certificate(cert);
                 }
             }
